@@ -124,6 +124,21 @@ namespace fsh
                 ov[{ r, c }] = to_status(g.next());
             }
         }
+        // optional trailing token `len=<Ly>,<Lx>`: build the grid with from_length (the spacing tokens
+        // then hold Ly / (rows - 1), Lx / (cols - 1) as computed by the generator)
+        bool from_len = false;
+        double ly = 0, lx = 0;
+        if (g.more())
+        {
+            std::string t = g.next();
+            if (t.rfind("len=", 0) == 0)
+            {
+                auto comma = t.find(',');
+                ly = unhex(t.substr(4, comma - 4));
+                lx = unhex(t.substr(comma + 1));
+                from_len = true;
+            }
+        }
         auto go = [&](auto tag)
         {
             using C = typename decltype(tag)::type;
@@ -132,10 +147,14 @@ namespace fsh
             try
             {
                 fs::raster_boundary_status bs(b);
-                grid = std::make_unique<G>(typename G::shape_type{ rows, cols },
-                                           typename G::spacing_type{ dy, dx },
-                                           bs,
-                                           ov);
+                if (from_len)
+                    grid = std::make_unique<G>(G::from_length(typename G::shape_type{ rows, cols },
+                                                              typename G::length_type{ ly, lx }, bs, ov));
+                else
+                    grid = std::make_unique<G>(typename G::shape_type{ rows, cols },
+                                               typename G::spacing_type{ dy, dx },
+                                               bs,
+                                               ov);
             }
             catch (const std::exception& e)
             {
